@@ -66,7 +66,7 @@ def run_one(rng, counters, tier):
     try:
         P = rng.choice([2, 3, 3, 4, 4] if tier == "quick" else [2, 3, 4, 4, 5, 6])
         p = {"ploidy": P, "n_chrom": rng.choice([1, 1, 2, 3]), "shared_positions": rng.random() < 0.5, "dead_chrom": rng.choice([None, None, "hom", "noreads"]),
-             "gt_noise": rng.choice([0.0, 0.0, 0.1, 0.3]), "chrom_len": rng.choice([2000, 3000]), "n_var": rng.randint(5, 22 if P <= 4 else 12),
+             "gt_noise": rng.choice([0.0, 0.0, 0.1, 0.3]), "adjacent_cut": rng.random() < 0.3, "chrom_len": rng.choice([2000, 3000]), "n_var": rng.randint(5, 22 if P <= 4 else 12),
              "samples": ["sampleA", "sampleB"][: rng.choice([1, 1, 2])], "depth": rng.choice([4, 8, 12]), "read_len": rng.choice([(150, 500), (300, 1200)]),
              "error_rate": rng.choice([0.0, 0.01, 0.05]), "multiallelic": rng.choice([0.0, 0.2]), "collapse": rng.choice([0.0, 0.5]),
              "coverage_gaps": rng.choice([0, 0, 1, 2]), "paired": rng.choice([0.0, 0.5, 1.0])}
